@@ -87,6 +87,13 @@ def view_of(case, H):
         return hypergraph_to_bipartite(H, integer_ids=True)
     if v == "bip_str":
         return hypergraph_to_bipartite(H, integer_ids=False)
+    if v == "bip_und":
+        # an UNDIRECTED bipartite graph with the same node / edge attributes: _as_bipartite orients every incidence by its role
+        # (repo a58b70a; before, both directions were created and every coefficient counted twice).  Only for networks in which
+        # no species is on both sides of one reaction (an undirected simple graph holds one edge per species/reaction pair).
+        import networkx as nx
+        assert not has_catalyst(case)
+        return nx.Graph(hypergraph_to_bipartite(H, integer_ids=bool(case.get("perm_seed", 0) % 2)))
     if v in ("bip_perm", "bip_sperm"):
         # caller-supplied graph whose node ids are unrelated to the labels: the integer ids 1..N+M of the export
         # permuted (species and reaction ids interleaved, multi-digit), or strings "n<k>" (string order != numeric order)
@@ -105,6 +112,10 @@ def view_of(case, H):
     return H
 
 
+def has_catalyst(case):
+    return any({x for x, c in l if c > 0} & {x for x, c in r if c > 0} for _, _, l, r in case["rxns"])
+
+
 def _imat(M):
     import numpy as np
     A = np.asarray(M, dtype=float)
@@ -120,10 +131,15 @@ def _one(*vals):
 
 
 def impl(case):
+    if case.get("states"):
+        return _impl_history(case)
+    return _impl_core(case, build(case))
+
+
+def _impl_core(case, H):
     import warnings
     warnings.filterwarnings("ignore")
     from synkit.CRN.Props import stoich
-    H = build(case)
     Xv = view_of(case, H)
     try:
         sp, rx, Sm, Sp = stoich.build_S_minus_plus(Xv)
@@ -268,6 +284,12 @@ def certificates(S, m, n):
 
 
 def coq_case(case):
+    if case.get("states"):
+        return "L [%s]" % "; ".join(_coq_case_core(_state_case(case, k)) for k in range(len(case["states"])))
+    return _coq_case_core(case)
+
+
+def _coq_case_core(case):
     species, rx, S = ref_matrix(case)
     m, n = len(species), len(rx)
     if n == 0:
@@ -310,12 +332,98 @@ def node_ids(case):
 # ------------------------------------------------------------------ property oracle
 
 def oracle(case):
+    if case.get("states"):
+        return _oracle_history(case)
+    return _oracle_core(case, build(case))
+
+
+# ------------------------------------------------------------------ edit histories on ONE hypergraph object
+
+def _state_case(case, k):
+    st = case["states"][k]
+    return dict(kind=case.get("kind"), rxns=st["rxns"], iso=st["iso"], view="hyper", name="%s[state %d]" % (case.get("name", ""), k))
+
+
+def apply_edit(H, op):
+    """in-place edits of the analysed hypergraph (what a caller can do between two analyses)"""
+    k = op[0]
+    if k == "replace":                 # the reaction is replaced under its OLD id
+        _, eid, rule, l, r = op
+        H.remove_rxn(eid)
+        H.add_rxn({s: c for s, c in l}, {s: c for s, c in r}, rule=rule, edge_id=eid)
+    elif k == "coef":                  # a coefficient edited in place (counts of reactions / species unchanged)
+        _, eid, side, sp, c = op
+        sd = H.edges[eid].reactants if side == "l" else H.edges[eid].products
+        sd[sp] = c
+    elif k == "rmsp":                  # remove_species; prune_orphans=False keeps the species without incidence
+        _, sp, prune = op
+        H.remove_species(sp, prune_orphans=bool(prune))
+    elif k == "add":
+        _, eid, rule, l, r = op
+        H.add_rxn({s: c for s, c in l}, {s: c for s, c in r}, rule=rule, edge_id=eid)
+    elif k == "del":
+        H.remove_rxn(op[1])
+    else:
+        raise AssertionError(op)
+
+
+def _touch_everything(H):
+    """every derived view a cache could sit behind, read once (results discarded)"""
+    import warnings
+    warnings.filterwarnings("ignore")
+    from synkit.CRN.Props import stoich
+    for f in (lambda: H.incidence_matrix(sparse=False), lambda: H.incidence_matrix(sparse=True),
+              lambda: H.stoichiometric_matrix(sparse=False), lambda: stoich.build_S(H), lambda: stoich.summary(H),
+              lambda: stoich.left_nullspace(H), lambda: stoich.integer_conservation_laws(H)):
+        try:
+            f()
+        except ValueError:
+            pass
+
+
+def _impl_history(case):
+    H = build(_state_case(case, 0))
+    out = []
+    for k in range(len(case["states"])):
+        if k:
+            for op in case["edits"][k - 1]:
+                apply_edit(H, op)
+        _touch_everything(H)
+        out.append(_impl_core(_state_case(case, k), H))
+    return out
+
+
+def _oracle_history(case):
+    """every state of the edited object is judged like a fresh network (the reference is read off H.species / H.edges, the
+    object's own primary data); the states the generator predicted must be the states the object reaches"""
+    H = build(_state_case(case, 0))
+    fails = []
+    for k in range(len(case["states"])):
+        if k:
+            for op in case["edits"][k - 1]:
+                apply_edit(H, op)
+        st = case["states"][k]
+        want_sp = sorted({s for _, _, l, r in st["rxns"] for s, _ in l + r} | set(st["iso"]))
+        got = {eid: (e.rule, sorted(e.reactants.to_dict().items()), sorted(e.products.to_dict().items())) for eid, e in H.edges.items()}
+        want = {eid: (rule, sorted(map(tuple, l)), sorted(map(tuple, r))) for eid, rule, l, r in st["rxns"]}
+        if sorted(H.species) != want_sp or got != want:
+            return [dict(clause="history-generator", detail="state %d after %r: the hypergraph holds species %r reactions %r, the case predicted %r %r"
+                         % (k, case["edits"][k - 1] if k else None, sorted(H.species), got, want_sp, want))]
+        _touch_everything(H)
+        for f in _oracle_core(_state_case(case, k), H):
+            f = dict(f, detail="state %d (after in-place edits %r): %s" % (k, case["edits"][k - 1] if k else None, f["detail"]))
+            fails.append(f)
+        if fails:
+            break
+    return fails[:4]
+
+
+def _oracle_core(case, H):
     import warnings
     warnings.filterwarnings("ignore")
     import numpy as np
     from collections import Counter
     from synkit.CRN.Props import stoich
-    H = build(case)
     Xv = view_of(case, H)
     fails = []
 
@@ -443,6 +551,8 @@ def oracle(case):
 
 def shrink(case, fl):
     """Drop reactions / isolated species / decorations while the same clause still fails."""
+    if case.get("states"):
+        return case
     cur = dict(case)
     clause = fl.get("clause")
 
@@ -472,6 +582,8 @@ def shrink(case, fl):
 
 
 def neighbours(case, rng):
+    if case.get("states"):
+        return []
     out = []
     for k in range(len(case["rxns"])):
         out.append(dict(case, rxns=case["rxns"][:k] + case["rxns"][k + 1:], name="drop-rxn"))
@@ -481,6 +593,8 @@ def neighbours(case, rng):
 
 
 def nontrivial(case, obs):
+    if case.get("states"):
+        obs = obs[-1] if isinstance(obs, list) and obs and isinstance(obs[-1], list) else obs
     return bool(case["rxns"]) and isinstance(obs, list) and len(obs) > 3 and any(any(x != 0 for x in row) for row in obs[3])
 
 
@@ -488,7 +602,16 @@ def distribution(cases, obss):
     sizes, ranks, verd, lk = {}, {}, {}, {}
     lp_branch = 0
     views = {}
+    hist = dict(cases=0, states=0, edits={})
     for c, o in zip(cases, obss):
+        if c.get("states"):
+            hist["cases"] += 1
+            hist["states"] += len(c["states"])
+            for ed in c["edits"]:
+                for op in ed:
+                    key = op[0] + ("/keep" if op[0] == "rmsp" and not op[2] else "")
+                    hist["edits"][key] = hist["edits"].get(key, 0) + 1
+            o = o[-1] if isinstance(o, list) and o and isinstance(o[-1], list) else o
         views[c.get("view", "hyper")] = views.get(c.get("view", "hyper"), 0) + 1
         if not (isinstance(o, list) and len(o) == 17):
             verd["error/other"] = verd.get("error/other", 0) + 1
@@ -503,7 +626,7 @@ def distribution(cases, obss):
         if isinstance(dl, int) and dl > 1:
             lp_branch += 1
     return dict(matrix_sizes=dict(sorted(sizes.items())), ranks=ranks, verdicts=verd, left_kernel_dims=lk,
-                left_kernel_dim_gt1=lp_branch, views=views)
+                left_kernel_dim_gt1=lp_branch, views=views, edit_histories=hist)
 
 
 # ------------------------------------------------------------------ generators
@@ -557,6 +680,81 @@ def big_net(rng, k, kind="big"):
     return dict(kind=kind, rxns=rx, iso=iso, view=BIG_VIEWS[(k // 2) % len(BIG_VIEWS)], perm_seed=rng.randrange(10 ** 6))
 
 
+def edit_history(rng, kind="edit-history"):
+    """ONE hypergraph analysed, edited in place, analysed again (1-3 times).  Edits that keep the set of reaction ids and the
+    number of species (reaction replaced under its old id, coefficient changed in place, remove_species(prune_orphans=False))
+    as well as edits that change them."""
+    import copy
+    base = G.random_net(rng, max_s=5, max_r=4, maxc=3)
+    st = dict(rxns=copy.deepcopy(base["rxns"]), iso=list(base["iso"]))
+    pool = list(G.SPECIES7[:5])
+    states, edits = [copy.deepcopy(st)], []
+    fresh = 0
+
+    def side():
+        k = rng.choice([0, 1, 1, 2, 2])
+        return [[x, rng.randint(1, 3)] for x in rng.sample(pool, k)]
+
+    def occurring(rxns):
+        return {x for _, _, l, r in rxns for x, _ in l + r}
+    for _ in range(rng.randint(1, 3)):
+        ops = []
+        for _ in range(rng.choice([1, 1, 2])):
+            z = rng.random()
+            rx = st["rxns"]
+            if z < 0.3 and rx:
+                i = rng.randrange(len(rx))
+                l, r = side(), side()
+                if not l and not r:
+                    continue
+                rule = rx[i][1] if rng.random() < 0.7 else rng.choice(G.RULES)
+                ops.append(["replace", rx[i][0], rule, l, r])
+                rx.pop(i)
+                rx.append([ops[-1][1], rule, l, r])
+            elif z < 0.6 and rx:
+                i = rng.randrange(len(rx))
+                sd = "l" if (rx[i][2] and rng.random() < 0.5) or not rx[i][3] else "r"
+                lst = rx[i][2] if sd == "l" else rx[i][3]
+                if not lst:
+                    continue
+                j = rng.randrange(len(lst))
+                c = rng.choice([x for x in (1, 2, 3, 4, 12) if x != lst[j][1]])
+                ops.append(["coef", rx[i][0], sd, lst[j][0], c])
+                lst[j][1] = c
+            elif z < 0.85 and rx:
+                occ = sorted(occurring(rx))
+                cand = [x for x in occ if all(any(y != x for y, _ in l + r) for _, _, l, r in rx if any(y == x for y, _ in l + r))]
+                if not cand:
+                    continue
+                x = rng.choice(cand)
+                prune = rng.random() < 0.25
+                ops.append(["rmsp", x, prune])
+                for t in rx:
+                    t[2] = [p for p in t[2] if p[0] != x]
+                    t[3] = [p for p in t[3] if p[0] != x]
+                if not prune and x not in st["iso"]:
+                    st["iso"].append(x)
+            elif z < 0.93:
+                l, r = side(), side()
+                if not l and not r:
+                    continue
+                fresh += 1
+                ops.append(["add", "zz_%d" % fresh, rng.choice(G.RULES), l, r])
+                rx.append([ops[-1][1], ops[-1][2], l, r])
+            elif len(rx) > 1:
+                i = rng.randrange(len(rx))
+                ops.append(["del", rx[i][0]])
+                rx.pop(i)
+            st["iso"] = [x for x in st["iso"] if x not in occurring(st["rxns"])]
+        if not ops:
+            continue
+        edits.append(copy.deepcopy(ops))
+        states.append(copy.deepcopy(st))
+    if len(states) < 2:
+        return None
+    return dict(kind=kind, states=states, edits=edits, rxns=states[-1]["rxns"], iso=states[-1]["iso"], view="hyper")
+
+
 def _sweep_sample(count, rng, kind):
     """random sample of the coefficient sweep (sets of 1..2 reactions, coefficients in {0,1,2}, 3 species) without
     enumerating the orbit representatives (the thorough tier enumerates them all)."""
@@ -581,7 +779,21 @@ def gen_cases(tier, rng):
     cases = []
     cases += G.textbook()
     for k in range(40 if tier == "quick" else 400):
-        cases.append(big_net(rng, k))
+        c = big_net(rng, k)
+        if k % 7 == 3 and not has_catalyst(c):
+            c["view"] = "bip_und"
+        cases.append(c)
+    for t in G.textbook():                                   # undirected inputs of the textbook networks without catalysts
+        t.pop("delta", None)
+        t.pop("wr", None)
+        if not has_catalyst(t):
+            cases.append(dict(t, view="bip_und", name=t["name"] + "/undirected"))
+    nh = 0
+    while nh < (60 if tier == "quick" else 600):
+        c = edit_history(rng)
+        if c is not None:
+            cases.append(c)
+            nh += 1
     if tier != "quick":
         # three-digit node ids / indices (one case: about 1.5 min of vm_compute)
         c101 = G.net_from_strings(["X%d >> X%d" % (i, i % 101 + 1) for i in range(1, 102)], "big", name="big/cycle-101")
@@ -599,6 +811,9 @@ def gen_cases(tier, rng):
         c = G.random_net(rng)
         if c["view"] != "hyper" and rng.random() < 0.4:      # node ids unrelated to the labels
             c["view"] = "bip_perm" if c["view"] == "bip_int" else "bip_sperm"
+            c["perm_seed"] = rng.randrange(10 ** 6)
+        elif not has_catalyst(c) and rng.random() < 0.25:    # undirected input
+            c["view"] = "bip_und"
             c["perm_seed"] = rng.randrange(10 ** 6)
         cases.append(c)
     for _ in range(ncons):
